@@ -955,6 +955,134 @@ def history_run(rep, verbose=False):
     return None
 
 
+# ---- interleaved histories of different classes (pixel and sky), one ordering per fresh interpreter -------------
+# Module / class level state of the aperture package persists for the whole process, so which class is the first
+# to have a parameter re-assigned can decide what later re-assignments invalidate: every ordering runs in its own
+# subprocess; spec = {'seed': int, 'first': 'sky' | 'noncircular' | 'circular' | 'any'}.
+SKY_OF = {'circle': 'SkyCircularAperture', 'cannulus': 'SkyCircularAnnulus', 'ellipse': 'SkyEllipticalAperture',
+          'eannulus': 'SkyEllipticalAnnulus', 'rect': 'SkyRectangularAperture', 'rannulus': 'SkyRectangularAnnulus'}
+
+
+def _sky_make(fam, rng):
+    import astropy.units as u
+    from astropy.coordinates import SkyCoord
+    from photutils import aperture as ap
+    pos = SkyCoord(rng.uniform(5, 50) * u.deg, rng.uniform(-40, 40) * u.deg)
+    v = rng.uniform(1, 3)
+    params = {'circle': dict(r=v), 'cannulus': dict(r_in=v, r_out=2 * v), 'ellipse': dict(a=2 * v, b=v),
+              'eannulus': dict(a_in=v, a_out=2 * v, b_out=1.5 * v), 'rect': dict(w=2 * v, h=v),
+              'rannulus': dict(w_in=v, w_out=2 * v, h_out=1.5 * v)}[fam]
+    params = {k: val * u.arcsec for k, val in params.items()}
+    if fam not in ('circle', 'cannulus'):
+        params['theta'] = rng.uniform(0, 90) * u.deg
+    return getattr(ap, SKY_OF[fam])(pos, **params)
+
+
+def _sky_state(aper):
+    return (aper.shape, aper.isscalar, repr(aper))
+
+
+def _sky_step(aper, rng):
+    """re-assign one attribute of a sky aperture; returns (name, message or None)"""
+    import astropy.units as u
+    from astropy.coordinates import SkyCoord
+    name = rng.choice(list(aper._params))
+    if name == 'positions':
+        n = rng.choice([0, 2, 3])    # scalar <-> array: shape / isscalar must follow
+        val = (SkyCoord(rng.uniform(5, 50) * u.deg, rng.uniform(-40, 40) * u.deg) if n == 0 else
+               SkyCoord([rng.uniform(5, 50) for _ in range(n)] * u.deg, [rng.uniform(-40, 40) for _ in range(n)] * u.deg))
+    elif name == 'theta':
+        val = rng.uniform(0, 180) * u.deg
+    else:
+        val = getattr(aper, name) * (0.5 if name.endswith('_in') else 1.5)
+    aper.shape, aper.isscalar    # fill the caches
+    setattr(aper, name, val)
+    fresh = type(aper)(**{k: getattr(aper, k) for k in aper._params})
+    if _sky_state(aper) != _sky_state(fresh):
+        return name, f'shape/isscalar/repr {_sky_state(aper)} but a fresh aperture has {_sky_state(fresh)}'
+    return name, None
+
+
+def interleaved_child(spec):
+    """Runs inside a fresh interpreter.  Returns dict(ok, msg, first, steps)."""
+    import random
+    rng = random.Random(spec['seed'])
+    objs = []     # (kind, fam, aper, method, sub)
+    for fam in FAMS:
+        case = None
+        while case is None or case['fam'] != fam or case['pos_kind'] in ('far', 'double-far') or \
+                max(v for k_, v in case['params'].items() if k_ != 'theta') > 6:
+            case = gen_mask_case(rng, 'quick')
+        method, sub = rng.choice(['center', 'subpixel', 'exact']), rng.choice([1, 2, 3])
+        aper = make_aperture(case)
+        aper.bbox, aper.to_mask(method=method, subpixels=sub), aper.area      # fill the caches
+        objs.append(['pixel', fam, aper, method, sub])
+        objs.append(['sky', fam, _sky_make(fam, rng), None, None])
+    pool = {'sky': [o for o in objs if o[0] == 'sky'],
+            'noncircular': [o for o in objs if o[0] == 'pixel' and o[1] not in ('circle', 'cannulus')],
+            'circular': [o for o in objs if o[0] == 'pixel' and o[1] in ('circle', 'cannulus')],
+            'any': objs}[spec.get('first', 'any')]
+    first = rng.choice(pool)
+    order = [o for o in objs for _ in range(3)]
+    rng.shuffle(order)
+    order = [first] + order
+    steps = []
+    for kind, fam, aper, method, sub in order:
+        cls = type(aper).__name__
+        if kind == 'sky':
+            name, msg = _sky_step(aper, rng)
+            steps.append([cls, name])
+        else:
+            name = rng.choice(list(aper._params))
+            val = history_new_value(rng, aper, name)
+            steps.append([cls, name, list(val) if name == 'positions' else val])
+            setattr(aper, name, val)
+            msg, m = history_compare(aper, method, sub)
+            if not msg:    # and the oracles of a fresh aperture
+                hc = case_of(aper, method, sub)
+                bb = (m.bbox.ixmin, m.bbox.ixmax, m.bbox.iymin, m.bbox.iymax)
+                bad, _ = bbox_oracle(hc, bb)
+                if bad:
+                    msg = f'bounding box is not the smallest box containing the current shape: {bad}'
+        if msg:
+            return dict(ok=False, fam=fam, kind=kind, attr=name, first=type(first[2]).__name__, steps=steps,
+                        msg=f'{cls} after re-assigning {name} (step {len(steps)}; first class re-assigned in this '
+                            f'process: {type(first[2]).__name__}): {msg}')
+    return dict(ok=True, first=type(first[2]).__name__, steps=steps)
+
+
+_CHILD_CODE = ('import sys, json\n'
+               'from harness import core\n'
+               'core.setup_repo_path()\n'
+               'from harness import c01\n'
+               'spec = json.loads(sys.argv[1])\n'
+               'try:\n'
+               '    r = c01.interleaved_child(spec)\n'
+               'except Exception as e:\n'
+               '    import traceback\n'
+               '    r = dict(ok=False, fam="?", kind="?", attr="raises", first="?", steps=[],\n'
+               '             msg="raises %s: %s" % (type(e).__name__, e), tb=traceback.format_exc()[-1500:])\n'
+               'print("RESULT " + json.dumps(r))\n')
+
+
+def interleaved_spawn(spec):
+    import json
+    import subprocess
+    import sys
+    return subprocess.Popen([sys.executable, '-W', 'ignore', '-c', _CHILD_CODE, json.dumps(spec)], cwd=str(core.VERIF),
+                            stdout=subprocess.PIPE, stderr=subprocess.PIPE, text=True)
+
+
+def interleaved_collect(proc):
+    import json
+    out, err = proc.communicate(timeout=600)
+    for line in out.splitlines():
+        if line.startswith('RESULT '):
+            return json.loads(line[7:])
+    return dict(ok=False, fam='?', kind='?', attr='raises', first='?', steps=[],
+                msg='interleaved-history subprocess produced no result: ' + (err or out)[-800:])
+
+
 # =====================================================================================================
 def run(ctx):
     ctx.build_with_translator(FILES)
@@ -967,7 +1095,8 @@ def run(ctx):
         'sub-pixel centre whose deciding quantity is within the scaled 2^-40 margin are skipped); every mask through '
         'the compiled kernels AND through the re-interpreted .pyx text; huge shapes (60..300 px) with Python oracles '
         'only; per-class histories (every shape attribute, theta and positions re-assigned one at a time after the '
-        'caches were filled, compared with a fresh aperture and with the oracles/model); BoundingBox '
+        'caches were filled, compared with a fresh aperture and with the oracles/model; plus interleaved histories '
+        'over all twelve pixel+sky classes with a randomised first class, each ordering in a fresh interpreter); BoundingBox '
         'from_float/slices/union/intersection on random and boundary boxes incl. zero-size images; '
         'non-trivial = non-empty mask / non-empty overlap; distinct by (class, params, position, method, subpixels)')
     ctx.cov['partial_clauses'] = [
@@ -994,6 +1123,11 @@ def run(ctx):
     except Exception as e:   # noqa: BLE001  (a kernel text that does not even load)
         ctx.broken_obligation('pyx-untranslatable', {'error': repr(e)})
         ctx.stat('text', 'untranslatable', 1)
+    # interleaved multi-class histories: one ordering per fresh interpreter (spawned now, collected below)
+    inter_specs = [dict(kind='interleaved', seed=rng.randrange(1 << 30), first=f)
+                   for f in (['sky', 'noncircular', 'any'] if quick else
+                             ['sky', 'noncircular', 'circular', 'any'] * 3)]
+    inter_procs = [(sp, interleaved_spawn(sp)) for sp in inter_specs]
     # ---------------- masks ----------------
     n = 220 if quick else 750
     coq_cases, descr = [], []
@@ -1177,6 +1311,14 @@ def run(ctx):
                         descr.append((hc, 'compiled'))
         except Exception as e:   # noqa: BLE001
             ctx.violation(f'history:{fam}:raises', f'{type(e).__name__}: {e}', rep)
+    for sp, proc in inter_procs:
+        r = interleaved_collect(proc)
+        ctx.stat('history-interleaved', 'first=' + str(r.get('first')))
+        ctx.count_case(['interleaved', sp['seed'], sp['first']], True)
+        ctx.stat('history-interleaved', 'steps', len(r.get('steps', [])))
+        if not r.get('ok'):
+            ctx.violation(f"history:interleaved:{r.get('fam')}:reassign-{r.get('attr')}", r.get('msg', ''),
+                          dict(sp, steps=r.get('steps'), tb=r.get('tb')))
     # ---------------- bounding-box algebra, from_float and slices ----------------
     from photutils.aperture import BoundingBox
     nb = 200 if quick else 2000
@@ -1420,6 +1562,11 @@ def replay(obj):
         msg = box_replay(r)
     elif kind == 'to_image':
         msg = to_image_check(r)
+    elif kind == 'interleaved':
+        res = interleaved_collect(interleaved_spawn({k_: r[k_] for k_ in ('kind', 'seed', 'first')}))
+        for st in res.get('steps', []):
+            print('  step', st)
+        msg = None if res.get('ok') else res.get('msg')
     elif kind == 'history':
         try:
             msg = history_run(r, verbose=True)
